@@ -404,6 +404,54 @@ func run(c *vf.Ctx) {
 	c.Stage("R-values", map[string]any{"unseals": nval})
 	c.Logf("R values: %d unseals", nval)
 
+	// ---- R appendix: the appendix is unprotected - replacing it on a SEALED frame (as a relay does with
+	// SetAppendixData), also with one that no longer fits the frame's buffer, never invalidates the frame
+	napx := 0
+	for _, mt := range []frame.MessageType{frame.RouterHopPing, frame.RouterPing, frame.NetworkTraffic, frame.SessionCtrl} {
+		for _, m := range margins {
+			for _, ps := range []int{1, 45, 599, 1500} {
+				for _, grow := range []int{0, 1, 100, 300, 440, 520, 560, 1000, 1560, 4000, 5060, 9000, 9560, 10000} {
+					if !c.Thorough() && napx%3 != int(c.Seed%3) && grow != 520 && grow != 1560 {
+						napx++
+						continue
+					}
+					napx++
+					t.rekey()
+					payload := t.randBytes(ps)
+					t.bldA.SetFrameMargins(m[0], m[1])
+					f, err := t.bldA.NewFrameV1(t.a.ID.IP, t.b.ID.IP, mt, nil, payload, t.randBytes(t.rng.Intn(40)))
+					if err != nil {
+						continue
+					}
+					if err := f.Seal(t.ab); err != nil {
+						f.ReturnToPool()
+						continue
+					}
+					newApx := t.randBytes(grow)
+					serr := f.SetAppendixData(newApx)
+					var wire []byte
+					if raw, err := f.FrameDataWithMargins(0, 0); err == nil {
+						wire = append([]byte(nil), raw...)
+					}
+					f.ReturnToPool()
+					c.Eval(1)
+					if serr != nil {
+						continue // the builder may refuse an appendix (size limit): nothing was changed
+					}
+					ok, same, panicked, _ := t.unseal(wire, "correct", payload)
+					c.Distinct(fmt.Sprintf("apxgrow|%s|%v|%d|%d", mt, m, ps, grow))
+					if !ok || !same || panicked {
+						c.Violation(vf.Key("appendix-replaced", mt.Class(), "invalidated"),
+							fmt.Sprintf("%s frame (payload %d bytes, margins %v): after the appendix of the sealed frame was replaced by one of %d bytes the receiver rejects the frame (accepted=%v payload intact=%v panic=%v) - only the unprotected appendix changed", mt, ps, m, grow, ok, same, panicked),
+							map[string]any{"type": mt.String(), "payload": ps, "margins": m, "appendix": grow}, nil)
+					}
+				}
+			}
+		}
+	}
+	c.Stage("R-appendix", map[string]any{"cases": napx})
+	c.Logf("R appendix: %d cases", napx)
+
 	// ---- T ----
 	var events []any
 	traces := 0
